@@ -245,6 +245,9 @@ std::string show_call(const Call& k)
 	os << std::setprecision(17) << kMC[k.method] << " d=" << k.d << " ncalls=" << k.ncalls << " seed=" << k.seed << " family=" << k.family << " par=" << show(k.par) << " region=" << show(k.region, 12);
 	return os.str();
 }
+// Vegas stratifies each axis into ng = int((ncalls/2+0.25)^(1/d)) slices and, when 2*ng >= 50, chooses the number of bins as a divisor
+// pattern of ng; for 2*ng < 50 strata and the 50 bins are not aligned (matcher of the known finding K2)
+bool vegas_strata_misaligned(int ncalls, int d) { return (int) std::pow(ncalls / 2.0 + 0.25, 1.0 / d) < 25; }
 double volume(const Call& k)
 {
 	double v = 1;
@@ -345,15 +348,18 @@ VCLAUSE(containment_and_constants, 60, 2500, 50000, "the region is offset from t
 	if(k.family == 0)
 	{
 		double cv = k.par[0] * volume(k);
-		if(k.method == 1 && k.d >= 3 && finding_open("K2"))
+		if(k.method == 1 && vegas_strata_misaligned(k.ncalls, k.d) && finding_open("K2"))
 		{
-			// known finding K2: Vegas does not integrate constants to rounding in d>=3 (excluded from the exactness clause, counted)
+			// known finding K2: Vegas does not integrate constants to rounding when its strata are not aligned with its 50 bins,
+			// i.e. for ng = int((ncalls/2+0.25)^(1/d)) < 25 (every d>=3 budget up to 31250, d=2 below 1250 calls): excluded from the
+			// exactness clause, counted, only a 1% sanity bound is asserted
 			c.known("K2");
-			VCLOSE(c, "vegas_constant_d_ge_3_sanity", r.value, cv, 1e-2 * std::fabs(cv), "Vegas on a constant in d>=3 (known finding K2: only a 1% sanity bound is asserted)");
+			VCLOSE(c, "vegas_constant_misaligned_strata_sanity", r.value, cv, 1e-2 * std::fabs(cv), "Vegas on a constant with misaligned strata (known finding K2: only a 1% sanity bound is asserted)");
 		}
 		else
 		{
-			double rel = k.method == 0 ? 4.0 * k.ncalls * EPS : (k.method == 2 ? 256 * EPS : 1e-11);
+			// plain MC and Vegas accumulate N (5N) terms: rounding up to ~N eps; Miser averages recursively
+			double rel = k.method == 0 ? 4.0 * k.ncalls * EPS : (k.method == 2 ? 256 * EPS : 1e-11 + 32.0 * k.ncalls * EPS);
 			VCLOSE(c, k.method == 0 ? "constant_plain_mc" : (k.method == 2 ? "constant_miser" : "constant_vegas"), r.value, cv, rel * std::fabs(cv), kMC[k.method] << " on the constant " << k.par[0] << " over a region of volume " << volume(k));
 		}
 	}
@@ -445,8 +451,9 @@ VCLAUSE(front_ends, 40, 1500, 30000, "the per-axis limits are pairwise different
 	}
 	VCHECK(bad == 0, bad << " of " << calls << " evaluations passed an argument outside the limits of its own axis: argument " << (int) badk << " received " << badx);
 	// a constant: exactly cst*volume (Vegas in 3D is the known finding K2, sanity bound only)
-	double rel = mi == 0 ? 4.0 * ncalls * EPS : (mi == 2 ? 256 * EPS : (three ? 1e-2 : 1e-11));
-	if(mi == 1 && three)
+	bool k2	   = (mi == 1 && vegas_strata_misaligned(ncalls, nd) && finding_open("K2"));
+	double rel = mi == 0 ? 4.0 * ncalls * EPS : (mi == 2 ? 256 * EPS : (k2 ? 1e-2 : 1e-11 + 32.0 * ncalls * EPS));
+	if(k2)
 		c.known("K2");
 	VCLOSE(c, "front_end_constant", v, cst * vol, rel * cst * vol, kMC[mi] << " front end on a constant over the box");
 }
